@@ -474,7 +474,10 @@ static size_t enc(const rnode* t, uint8_t* out, size_t cap, size_t o, bool* bad)
       int w = t->width;
       if (w == 16) {
         uint16_t hb = 0x7e00;
-        if (!t->isnan && !ref_single_to_half_exact((uint32_t)t->val, &hb)) *bad = true;
+        if (!t->isnan && !ref_single_to_half_exact((uint32_t)t->val, &hb)) {
+          /* a half-width item holding a value no half represents: outside C03's domain; C07 still speaks of it (3 bytes, content up to the library) */
+          if (ref_lossy_half_ok) ref_lossy_halves++; else *bad = true;
+        }
         bits = hb;
       } else if (w == 32)
         bits = t->isnan ? 0x7fc00000u : t->val;
@@ -486,8 +489,11 @@ static size_t enc(const rnode* t, uint8_t* out, size_t cap, size_t o, bool* bad)
   }
   return o - s;
 }
+bool ref_lossy_half_ok;
+unsigned ref_lossy_halves;
 size_t ref_encode(const rnode* t, uint8_t* out, size_t cap) {
   bool bad = false;
+  ref_lossy_halves = 0;
   size_t l = enc(t, out, cap, 0, &bad);
   return bad ? 0 : l;
 }
